@@ -47,6 +47,45 @@ def check_table(ctx):
     return locks, used
 
 
+def mutable_cache_is_locked(ctx, rc):
+    """The cache that is modified during a build (is_mutable) is the one
+    whose lock attributes are real locks; the read-only one may use null
+    contexts."""
+    from ..astpaths import cond_paths
+    prog = ctx.prog
+    C = ctx.R.cache
+    init = prog.lookup_method(C, '__init__')
+    flag = next((p for p in init.params if 'mutable' in p), None)
+    if flag is None:
+        raise AnalysisError('mutability flag of %s not found' % C)
+    tbl = set(GUARDS[C].values())
+    ok_real, bad = set(), []
+    for conds, st in cond_paths(init.node.body):
+        if not isinstance(st, ast.Assign):
+            continue
+        for t in st.targets:
+            if isinstance(t, ast.Attribute) and t.attr in tbl:
+                real = isinstance(st.value, ast.Call) and ast.unparse(
+                    st.value.func).split('.')[-1] in ('Lock', 'RLock')
+                pol = [p for tst, p in conds if isinstance(
+                    tst, ast.Name) and tst.id == flag]
+                if real and (not pol or pol[-1]):
+                    ok_real.add(t.attr)
+                if not real and pol and pol[-1]:
+                    bad.append((t.attr, st))
+    key = 'the mutable cache owns real locks'
+    missing = tbl - ok_real
+    if missing or bad:
+        rc.violation(
+            'mutable-cache-unlocked | ' + C,
+            'when %s is true the lock attribute(s) %s of %s are not '
+            'threading locks: the cache that all threads of a build modify '
+            'is not protected' % (flag, sorted(missing | {a for a, _ in bad}),
+                                  C), prog.loc(init, init.node), key=key)
+    else:
+        rc.ok({'flag': flag, 'locks': sorted(ok_real)}, key=key)
+
+
 def accesses(ctx, cname, fields):
     """Every load/store of self.<field> in methods of the class (and of
     <expr of that class>.<field> anywhere): (func, attr node, cfg nodes)."""
